@@ -504,6 +504,73 @@ mod verif_layout {
         }
     }
 
+    // ---------------------------------------------------------------- insert / remove / squeeze
+
+    /// remove_dim (NdLayout<3> -> NdLayout<2>): the remaining dims keep their sizes and strides in
+    /// order, so element j of the result is element ref(j) (index 0 on the removed size-1 dim).
+    #[kani::proof]
+    #[kani::unwind(6)]
+    pub fn remove_dim_matches_model_3() {
+        let l: NdLayout<3> = any_layout_small();
+        let dim: usize = kani::any();
+        kani::assume(dim < 3);
+        let out = l.remove_dim(dim);
+        let mut k = 0;
+        for d in 0..3 {
+            if d != dim { assert!(out.size(k) == l.size(d) && out.stride(k) == l.stride(d)); k += 1; }
+        }
+        if l.size(dim) == 1 && out.len() > 0 {
+            let j = any_index_in(out.shape());
+            let mut i = [0usize; 3];
+            let mut k = 0;
+            for d in 0..3 { if d != dim { i[d] = j[k]; k += 1; } }
+            assert!(out.offset(j) == l.offset(i));
+        }
+    }
+
+    /// insert_dim (NdLayout<2> -> NdLayout<3>): a size-1 dim appears at `dim`, the other dims keep
+    /// their sizes and strides in order; every element keeps its offset.
+    #[kani::proof]
+    #[kani::unwind(6)]
+    pub fn insert_dim_matches_model_2() {
+        let l: NdLayout<2> = any_layout_small();
+        let dim: usize = kani::any();
+        kani::assume(dim <= 2);
+        let out = l.insert_dim(dim);
+        assert!(out.size(dim) == 1);
+        let mut k = 0;
+        for d in 0..3 {
+            if d != dim { assert!(out.size(d) == l.size(k) && out.stride(d) == l.stride(k)); k += 1; }
+        }
+        assert!(out.len() == l.len());
+        if l.len() > 0 {
+            let i = any_index_in(l.shape());
+            let mut j = [0usize; 3];
+            let mut k = 0;
+            for d in 0..3 { if d != dim { j[d] = i[k]; k += 1; } }
+            assert!(out.offset(j) == l.offset(i));
+            kani::cover!(dim == 1);
+        }
+    }
+
+    /// squeezed (NdLayout<3> -> DynLayout): exactly the dims of size != 1 remain, in order, with
+    /// their strides; the element count is unchanged.
+    #[kani::proof]
+    #[kani::unwind(8)]
+    pub fn squeezed_matches_model_3() {
+        let l: NdLayout<3> = any_layout_small();
+        let out = l.squeezed();
+        let mut k = 0;
+        for d in 0..3 {
+            if l.size(d) != 1 {
+                assert!(k < out.ndim() && out.size(k) == l.size(d) && out.stride(k) == l.stride(d));
+                k += 1;
+            }
+        }
+        assert!(out.ndim() == k);
+        assert!(out.len() == l.len());
+    }
+
     // ---------------------------------------------------------------- broadcast / reshape
 
     #[kani::proof]
